@@ -19,8 +19,9 @@ from .interp import App, Const, Variant, Tup, Closure, Sym, Unknown, show
 
 
 class Trip:
-    def __init__(self, header, fid, pre, post, items, general, index):
+    def __init__(self, header, fid, pre, post, items, general, index, body_path=None):
         self.header, self.fid, self.pre, self.post, self.items, self.general, self.index = header, fid, pre, post, items, general, index
+        self.body_path = body_path
 
     @property
     def decisions(self):
@@ -57,7 +58,16 @@ def trips(path, body_path, fid=None):
             # a trip is general if the widening happened at this arrival (the widen event precedes the loophead event)
             general = i > 0 and path.trace[i - 1][0] == "e" and path.trace[i - 1][1][0] == "widen" and path.trace[i - 1][1][1] == h
             post = nxt[4] if nxt is not None else None
-            out.append(Trip(h, f, x[5] if x[5] is not None else x[4], post, items, general, i))
+            out.append(Trip(h, f, x[5] if x[5] is not None else x[4], post, items, general, i, body_path))
+    out.sort(key=lambda t: t.index)
+    return out
+
+
+def all_trips(path):
+    """Trips of every loop of every frame on this path (a loop in an inlined helper is as good as one in the caller)."""
+    out = []
+    for bp in sorted({x[2] for k, x in path.trace if k == "e" and x[0] == "loophead"}):
+        out.extend(trips(path, bp, None))
     out.sort(key=lambda t: t.index)
     return out
 
@@ -66,7 +76,7 @@ def exit_state(path, body_path, header, fid=0):
     """State of the loop-carried locals when the loop was last arrived at (= on exit through the header)."""
     last = None
     for k, x in path.trace:
-        if k == "e" and x[0] == "loophead" and x[2] == body_path and x[1] == header and x[3] == fid:
+        if k == "e" and x[0] == "loophead" and x[2] == body_path and x[1] == header and (fid is None or x[3] == fid):
             last = x
     if last is None:
         return None
